@@ -228,7 +228,10 @@ class _SourceCodeProbe:
             rec.events.append(ev('read', 'oserror'))
             raise
         except Exception as e:
-            rec.events.append(ev('read', 'escape', 0, (), type(e).__name__))
+            # from_file is not one of parse/evaluate/CodeGen/gen_lines: what matters is what main() makes of
+            # it (Driver.tla R2) — a decoding error that main() reports is legal, a traceback is not
+            rec.events.append(ev('read', 'decode_error' if isinstance(e, UnicodeError) else 'escape', 0, (),
+                                 type(e).__name__))
             _escape_info(rec.info, 'read', e)
             raise
         rec.source = src
